@@ -34,9 +34,15 @@ func symIP16(name string) net.IP          { return net.IP(vr.Bytes(name, 16)) }
 
 // buildField builds match field number kind with symbolic arguments; masked variants where the
 // constructor offers one are chosen by a symbolic boolean.
+// maskMode: 0 = masked variant chosen by a symbolic boolean (a fork), 1 = always masked, 2 = never
+var maskMode = 0
+
 func buildField(kind int) *MatchField {
 	vr.Note("field", fieldKindNames[kind])
-	masked := vr.Bool("masked")
+	masked := maskMode == 1
+	if maskMode == 0 {
+		masked = vr.Bool("masked")
+	}
 	switch kind {
 	case 0:
 		return NewInPortField(vr.U32("v"))
@@ -157,6 +163,9 @@ func buildField(kind int) *MatchField {
 		if vr.Thorough() {
 			idx = vr.IntRange("reg", 0, 15)
 		}
+		if masked && maskMode == 1 {
+			return NewRegMatchField(idx, vr.U32("v"), NewNXRange(4, 19))
+		}
 		if masked {
 			first := vr.IntRange("first", 0, 31)
 			last := vr.IntRange("last", first, 31)
@@ -164,7 +173,10 @@ func buildField(kind int) *MatchField {
 		}
 		return NewRegMatchField(idx, vr.U32("v"), nil)
 	case 34:
-		n := vr.IntRange("tmlen", 1, 5)
+		n := 4
+		if maskMode == 0 {
+			n = vr.IntRange("tmlen", 1, 5)
+		}
 		if masked {
 			return NewTunMetadataField(2, vr.Bytes("v", n), vr.Bytes("m", n))
 		}
